@@ -176,7 +176,7 @@ func rootFieldSkipped(op *ast.OperationDefinition, key string, vars map[string]i
 
 func TestC06(t *testing.T) {
 	rec := ev.Get("C06")
-	rec.Rule = "worlds with Mutation fields x generated mutation operations (1..3 root fields, children crossing services) x configuration (plain/cached planner, the same mutation sent 1..3 times, max batch size 1/2/3000, id hint) x fault (none, transport failure of a drawn sibling or child call); oracle over the fakes' logs per client request: every selected mutation root field is received exactly once, as a mutation, by its owning service only, and every other request is a query; non-trivial = the clean run makes >=2 downstream calls; distinct by hash(case)"
+	rec.Rule = "worlds with Mutation fields x generated mutation operations (1..3 root fields, children crossing services) x configuration (plain/cached planner, the same mutation sent 1..3 times, max batch size 1/2/3000, id hint) x fault (none, or a drawn sibling or child call failing: transport error, 500, errors without data, one error object for the whole batch, 3xx with an answer); plus TestC06RealHTTP: a fixed world behind loopback HTTP servers and the real net/http transport, 0..3 warm-up queries, the owning service dropping the connection after it has read the mutation (deliveries counted at the server); oracle over the fakes' logs per client request: every selected mutation root field is received exactly once, as a mutation, by its owning service only, and every other request is a query; non-trivial = the clean run makes >=2 downstream calls; distinct by hash(case)"
 	defer census.dump("C06")
 	rapid.Check(t, func(t *rapid.T) {
 		base, _ := genExecCase(t, rec, ast.Mutation)
@@ -207,7 +207,7 @@ func TestC06(t *testing.T) {
 		}
 		if len(calls) >= 2 && rapid.IntRange(0, 1).Draw(t, "fault") == 0 {
 			cr := calls[rapid.IntRange(0, len(calls)-1).Draw(t, "faultcall")]
-			c.Faults = []Fault{{URL: cr.URL, Query: cr.Query, Occurrence: cr.Occurrence, Kind: rapid.SampledFrom([]string{"transport", "status500", "errors-no-data"}).Draw(t, "fkind")}}
+			c.Faults = []Fault{{URL: cr.URL, Query: cr.Query, Occurrence: cr.Occurrence, Kind: rapid.SampledFrom([]string{"transport", "status500", "errors-no-data", "single-object-errors", "single-object-errors-400", "status300-answer"}).Draw(t, "fkind")}}
 		}
 		f, class := checkC06(c)
 		if strings.HasPrefix(class, "skip:") {
@@ -240,6 +240,10 @@ func TestC06(t *testing.T) {
 
 func init() {
 	replayers["C06"] = func(path string) (*ev.Failure, error) {
+		var rc RealHTTPCase
+		if _, _, err := ev.LoadCase(path, &rc); err == nil && rc.RealHTTP {
+			return checkC06Real(&rc), nil
+		}
 		var c MutCase
 		if _, _, err := ev.LoadCase(path, &c); err != nil {
 			return nil, err
